@@ -1305,7 +1305,25 @@ func (f *Frame) compare(op string, a, b Val, t types.Type, pos token.Pos) string
 			case "!=":
 				return not(eq)
 			}
-			panic(unsupported("string ordering comparison"))
+			// ordering: an abstract strict total order on texts (the lexicographic byte order
+			// is one; nothing else about it is assumed)
+			c.sortOf(textType)
+			c.decl("fn:txtlt", "(declare-fun txtlt (Txt Txt) Bool)")
+			c.decl("ax:txtlt", "(assert (forall ((a!o Txt) (b!o Txt)) (! (and (not (and (txtlt a!o b!o) (txtlt b!o a!o))) (or (txtlt a!o b!o) (txtlt b!o a!o) (= a!o b!o)) (not (txtlt a!o a!o))) :pattern ((txtlt a!o b!o)))))")
+			c.decl("ax:txtlt3", "(assert (forall ((a!o Txt) (b!o Txt) (c!o Txt)) (! (=> (and (txtlt a!o b!o) (txtlt b!o c!o)) (txtlt a!o c!o)) :pattern ((txtlt a!o b!o) (txtlt b!o c!o)))))")
+			norm := func(s string) string { return fmt.Sprintf("(txt (mkstr (sarr %s) (soff %s) (slen %s) 0))", s, s, s) }
+			ta, tb := norm(a.S), norm(b.S)
+			switch op {
+			case "<":
+				return fmt.Sprintf("(txtlt %s %s)", ta, tb)
+			case ">":
+				return fmt.Sprintf("(txtlt %s %s)", tb, ta)
+			case "<=":
+				return fmt.Sprintf("(not (txtlt %s %s))", tb, ta)
+			case ">=":
+				return fmt.Sprintf("(not (txtlt %s %s))", ta, tb)
+			}
+			panic(unsupported("string comparison " + op))
 		}
 		if isUnsafePtr(t) || u.Kind() == types.Uintptr {
 			if a.P != nil && b.P != nil && samePathRoot(a.P, b.P) && len(a.P.Steps) > 0 {
